@@ -98,7 +98,8 @@ func octal(s string) uint32 {
 	return uint32(v)
 }
 
-// old destination: "absent" | "dir" | "file:<len>:<mode>"
+// old destination: "absent" | "dir" | "file:<len>:<mode>" | "link:<len>:<mode>" (a symbolic link to such a file, which
+// lives outside the destination directory) | "dangling" (a symbolic link to nothing)
 type oldSpec struct {
 	kind string
 	n    int
@@ -111,9 +112,11 @@ func parseOld(s string) oldSpec {
 		return oldSpec{kind: "absent"}
 	case s == "dir":
 		return oldSpec{kind: "dir"}
-	case strings.HasPrefix(s, "file:"):
+	case s == "dangling":
+		return oldSpec{kind: "dangling"}
+	case strings.HasPrefix(s, "file:"), strings.HasPrefix(s, "link:"):
 		f := strings.Split(s, ":")
-		return oldSpec{kind: "file", n: atoi(f[1]), mode: octal(f[2])}
+		return oldSpec{kind: f[0], n: atoi(f[1]), mode: octal(f[2])}
 	}
 	panic("bad old spec " + s)
 }
@@ -144,12 +147,58 @@ func setup(o oldSpec) (string, string) {
 		if err = os.Mkdir(dst, 0o755); err != nil {
 			panic(err)
 		}
+	case "link":
+		target := dir + ".target"
+		if err = os.WriteFile(target, genBytes(0, o.n, seedOld), 0o600); err != nil {
+			panic(err)
+		}
+		if err = os.Chmod(target, os.FileMode(o.mode)); err != nil {
+			panic(err)
+		}
+		if err = os.Symlink(target, dst); err != nil {
+			panic(err)
+		}
+	case "dangling":
+		if err = os.Symlink(dir+".missing", dst); err != nil {
+			panic(err)
+		}
 	}
 	return dir, dst
 }
 
-// fileState: "absent" | "dir" | "<len>:<fnv1a-64 hex>:<mode octal>" | "unreadable:…"
+// cleanup removes what setup created.
+func cleanup(dir string) {
+	os.RemoveAll(dir)
+	os.Remove(dir + ".target")
+}
+
+// targetCheck: the file a symbolic-link destination pointed to must never be touched (the rename replaces the link).
+func targetCheck(dir string, o oldSpec) string {
+	switch o.kind {
+	case "link":
+		if s := readState(dir + ".target"); s != stateOf(genBytes(0, o.n, seedOld), o.mode) {
+			return " BAD:link-target-modified:" + s
+		}
+	case "dangling":
+		if _, err := os.Lstat(dir + ".missing"); err == nil {
+			return " BAD:link-target-created"
+		}
+	}
+	return ""
+}
+
+// fileState is readState plus the marker "@" when the path itself is a symbolic link.
 func fileState(p string) string {
+	st, err := os.Lstat(p)
+	s := readState(p)
+	if err == nil && st.Mode()&os.ModeSymlink != 0 {
+		s += "@"
+	}
+	return s
+}
+
+// readState (what a reader of the path sees): "absent" | "dir" | "<len>:<fnv1a-64 hex>:<mode octal>" | "unreadable"
+func readState(p string) string {
 	f, err := os.Open(p)
 	if err != nil {
 		if os.IsNotExist(err) {
@@ -202,6 +251,13 @@ func extras(dir string) []string {
 
 var errCB = errors.New("callback failed")
 
+// lastCbErr is the very error value the callback returned last; "the error is returned" is checked by identity.
+var lastCbErr error = errCB
+
+type cbErrT struct{}
+
+func (*cbErrT) Error() string { return "typed-nil callback error" }
+
 var errPanicked = errors.New("panic left WriteFileWithMode")
 
 var errnoNames = map[syscall.Errno]string{
@@ -219,7 +275,7 @@ func resCode(err error) string {
 	switch {
 	case errors.Is(err, errPanicked):
 		return "panic"
-	case errors.Is(err, errCB):
+	case err == lastCbErr || errors.Is(err, errCB):
 		return "cb"
 	case errors.Is(err, os.ErrClosed):
 		return "closed"
@@ -244,13 +300,13 @@ func startReader(dst string, allowed ...string) *reader {
 	r := &reader{stop: make(chan struct{}), done: make(chan string, 1)}
 	ok := map[string]bool{}
 	for _, a := range allowed {
-		ok[a] = true
+		ok[strings.TrimSuffix(a, "@")] = true
 	}
 	go func() {
 		bad := ""
 		n := 0
 		for {
-			s := fileState(dst)
+			s := readState(dst)
 			n++
 			if !ok[s] && bad == "" {
 				bad = s
